@@ -122,7 +122,7 @@ func c06Oracle(c *vlib.Case) *vlib.Violation {
 				b, e2 := vlib.ParseOrdered([]byte(js))
 				if e1 == nil && e2 == nil && a.StripExamples().Canon(false) == b.StripExamples().Canon(false) {
 					class = "catalog-example-only"
-					if hasRegexType(c.Project) {
+					if hasRegexType(c.Project) && c06KeepRegexTypeExamples(a).Canon(false) == c06KeepRegexTypeExamples(b).Canon(false) {
 						class = "catalog-example-of-schema-using-regex-type"
 					}
 				}
@@ -171,7 +171,7 @@ func c06Oracle(c *vlib.Case) *vlib.Violation {
 			b, e2 := vlib.ParseOrdered([]byte(otherJSON))
 			if e1 == nil && e2 == nil && a.StripExamples().Canon(false) == b.StripExamples().Canon(false) {
 				class = "catalog-example-only"
-				if hasRegexType(c.Project) {
+				if hasRegexType(c.Project) && c06KeepRegexTypeExamples(a).Canon(false) == c06KeepRegexTypeExamples(b).Canon(false) {
 					class = "catalog-example-of-schema-using-regex-type"
 				}
 			}
@@ -231,6 +231,28 @@ func c06TypeBlockAt(p *vlib.Project, file string, line int) string {
 		return ""
 	}
 	return best
+}
+
+// c06KeepRegexTypeExamples blanks every example but the regex user types' own: finding N5 is about the examples of
+// schemas that *use* a regex type; the example a regex type shows for itself is drawn once and must not change.
+func c06KeepRegexTypeExamples(n *vlib.ON) *vlib.ON {
+	keep := map[string]bool{}
+	if ut := n.Get("userTypes"); ut.IsObj() {
+		for i, k := range ut.Keys {
+			if sc := ut.Vals[i].Get("schema"); sc.IsObj() && sc.S("notation") == "regex" {
+				keep[k] = true
+			}
+		}
+	}
+	return n.MapStrings(func(path []string, s string) string {
+		if len(path) > 0 && path[len(path)-1] == "example" {
+			if len(path) == 4 && path[0] == "userTypes" && path[2] == "schema" && keep[path[1]] {
+				return s
+			}
+			return ""
+		}
+		return s
+	})
 }
 
 func pretty(k string) string { return strings.ReplaceAll(k, "\x00", " | ") }
@@ -481,7 +503,7 @@ var c06Concurrent = &vlib.Check{
 						b, e2 := vlib.ParseOrdered([]byte(gotJS[i][k]))
 						if e1 == nil && e2 == nil && a.StripExamples().Canon(false) == b.StripExamples().Canon(false) {
 							class = "catalog-example-only"
-							if hasRegexType(projects[i]) {
+							if hasRegexType(projects[i]) && c06KeepRegexTypeExamples(a).Canon(false) == c06KeepRegexTypeExamples(b).Canon(false) {
 								class = "catalog-example-of-schema-using-regex-type" // (open finding N5: not an effect of the concurrency)
 							}
 						}
